@@ -680,6 +680,7 @@ func main() {
 	racePass(r)
 	r.Evals(evals)
 	r.Nontrivial(nontr)
+	r.Set("text_only_subjects", "messages holding unknown fields, lacking a required field, holding invalid UTF-8 (plain and fast-marshal, every flavour): csproto.MarshalText == the owning runtime's rendering (Google V2: modulo runs of white space)")
 	r.Sample(map[string]any{"subject": subs[0].name, "functions": "MsgType, Marshal, Size, Unmarshal x4 directions, GrpcCodec, Clone, MarshalText, Reset, Equal(all ordered pairs)"})
 	r.Rule("Mode X: every subject (fast-marshal corpus types Scalars/Repeated/Packed/Oneofs/MapsV/Child/Empty of p2 and p3 for gogo, legacy v1, gv2, gv1 over every 7th (thorough: every) single-field/special value tree; plain messages without fast-marshal methods: google v2 well-known types and descriptor, gogo descriptor types, gogo self-marshaling types, hand-written Google V1 messages with and without XXX_ methods) x every API function, differential against the owning runtime called directly; Equal over all ordered pairs of two representatives per kind incl. cross-runtime pairs; 9 unsupported values and 3 typed-nil pointers x every function (documented error / zero result, no panic; Reset excepted). Mode S: for each scenario ALL interleavings (unbounded preemptions) of 2-4 goroutines calling MsgType / Clone / Equal / HasExtension on a type whose cache entry was removed before the execution; scheduling points = every sync.Map operation of message_types.go; oracle = every goroutine sees the correct class and the final cache entry is correct. states/transitions = scheduling points executed, traces = complete executions. distinct_nontrivial = decode directions / equal pairs that compared equal.")
 	r.Assume("data races inside sync.Map itself are the Go runtime's business; the cooperative scheduler explores orders of its operations (sequential consistency)")
